@@ -218,6 +218,94 @@ type Loop struct {
 	Complete bool
 	Elem     ssa.Value // element value or address, when identifiable (may be nil)
 	Index    ssa.Value
+	// IndexCell: set when the loop counter lives in a variable captured by a
+	// closure (an Alloc cell read and written through loads and stores); IndexVals
+	// are then the values stored into it (0 and cell+1).
+	IndexCell *ssa.Alloc
+	IndexVals []ssa.Value
+}
+
+// IsIndex reports whether v is the loop's index value (or one of the values
+// its counter cell holds).
+func (l *Loop) IsIndex(v ssa.Value) bool {
+	if v == l.Index {
+		return true
+	}
+	for _, x := range l.IndexVals {
+		if x == v {
+			return true
+		}
+	}
+	return false
+}
+
+// counterCell: idx is a load of a local cell whose only stores are `= 0` and
+// `= cell + 1`, and which no closure writes: a loop counter that happens to be
+// captured by a closure.
+func counterCell(idx ssa.Value) (*ssa.Alloc, []ssa.Value, bool) {
+	ld, ok := idx.(*ssa.UnOp)
+	if !ok || ld.Op != token.MUL {
+		return nil, nil, false
+	}
+	cell, ok := ld.X.(*ssa.Alloc)
+	if !ok || cell.Referrers() == nil {
+		return nil, nil, false
+	}
+	var vals []ssa.Value
+	zero, inc := 0, 0
+	for _, r := range *cell.Referrers() {
+		switch x := r.(type) {
+		case *ssa.Store:
+			if x.Addr != ssa.Value(cell) {
+				return nil, nil, false // the cell's address is stored somewhere
+			}
+			if c, isConst := ConstInt(x.Val); isConst && c == 0 {
+				zero++
+				vals = append(vals, x.Val)
+				continue
+			}
+			b, isBin := x.Val.(*ssa.BinOp)
+			if !isBin || b.Op != token.ADD {
+				return nil, nil, false
+			}
+			one, isOne := ConstInt(b.Y)
+			l2, isLoad := b.X.(*ssa.UnOp)
+			if !isOne || one != 1 || !isLoad || l2.Op != token.MUL || l2.X != ssa.Value(cell) {
+				return nil, nil, false
+			}
+			inc++
+			vals = append(vals, b)
+		case *ssa.UnOp:
+			// load
+		case *ssa.MakeClosure:
+			// the closure may read the cell but must not write it
+			fn, _ := x.Fn.(*ssa.Function)
+			if fn == nil {
+				return nil, nil, false
+			}
+			for bi, bv := range x.Bindings {
+				if bv != ssa.Value(cell) || bi >= len(fn.FreeVars) {
+					continue
+				}
+				fv := fn.FreeVars[bi]
+				if fv.Referrers() == nil {
+					continue
+				}
+				for _, fr := range *fv.Referrers() {
+					if u, isLoad := fr.(*ssa.UnOp); !isLoad || u.Op != token.MUL {
+						return nil, nil, false
+					}
+				}
+			}
+		case *ssa.DebugRef:
+		default:
+			return nil, nil, false
+		}
+	}
+	if zero != 1 || inc != 1 {
+		return nil, nil, false
+	}
+	return cell, vals, true
 }
 
 // Loops finds the element loops of fn: range loops over slices/arrays (in
@@ -258,7 +346,7 @@ func Loops(fn *ssa.Function) []*Loop {
 		// block must really be a loop header (target of a back edge)
 		isHeader := false
 		for _, p := range b.Preds {
-			if b.Dominates(p) {
+			if Dominates(b, p) {
 				isHeader = true
 			}
 		}
@@ -277,6 +365,28 @@ func Loops(fn *ssa.Function) []*Loop {
 		idx := bin.X
 		l := &Loop{Header: b, Body: Edge{b, 0}, Exit: Edge{b, 1}, Over: over, Index: idx}
 		l.Complete = inductionFromZero(idx)
+		if cell, vals, ok := counterCell(idx); ok {
+			l.IndexCell, l.IndexVals, l.Complete = cell, vals, true
+			// element: over[load(cell)] inside the loop
+			for _, r := range *cell.Referrers() {
+				ld, isLoad := r.(*ssa.UnOp)
+				if !isLoad || ld.Referrers() == nil {
+					continue
+				}
+				for _, rr := range *ld.Referrers() {
+					switch y := rr.(type) {
+					case *ssa.IndexAddr:
+						if y.Index == ssa.Value(ld) && sameCollection(y.X, over) {
+							l.Elem = y
+						}
+					case *ssa.Index:
+						if y.Index == ssa.Value(ld) && sameCollection(y.X, over) {
+							l.Elem = y
+						}
+					}
+				}
+			}
+		}
 		// element: IndexAddr/Index of over by idx inside the loop
 		if idx.Referrers() != nil {
 			for _, r := range *idx.Referrers() {
